@@ -49,14 +49,41 @@ class Release:
     __array_ufunc__ = None       # numpy defers  ndarray + token  to token.__radd__(ndarray)
 
 
+class Divergence(Exception):
+    """the run on D' left the lock-step of the run on D (different event kind / size / noise scale at the same position)"""
+
+
 class MechRecorder:
     """stands in for numpy.random in the mechanism modules"""
 
-    def __init__(self, V, run_id, picks):
+    def __init__(self, V, run_id, picks, reference=None):
         self.V = V
         self.run_id = run_id
         self.picks = picks        # shared between the two runs: event index -> chosen candidate
         self.events = []
+        self.reference = reference    # events of the run on D (for the run on D'): divergence is detected as soon as it happens
+
+    def _check_lockstep(self, ev):
+        ref = self.reference
+        if ref is None or not self.V.symbolic:
+            return
+        k = ev["k"]
+        if k >= len(ref):
+            raise Divergence("event %d (%s) has no counterpart in the run on D" % (k, ev["kind"]))
+        r = ref[k]
+        if r["kind"] != ev["kind"]:
+            raise Divergence("event %d is %s on D but %s on D'" % (k, r["kind"], ev["kind"]))
+        if ev["kind"] in ("gauss", "laplace"):
+            a, b = r["scale"], ev["scale"]
+            same = (a is b) or values._same_term(a, b) or (not isinstance(a, Sym) and not isinstance(b, Sym) and a == b)
+            if not same:
+                v, _, _ = solve.prove_eq(a, b, timeout_ms=10000)
+                if v != "unsat":
+                    raise Divergence("event %d: noise scale on D' is not the scale used on D" % k)
+            if r["size"] != ev["size"]:
+                raise Divergence("event %d: %s values released on D, %s on D'" % (k, r["size"], ev["size"]))
+        if ev["kind"] == "select" and r["n"] != ev["n"]:
+            raise Divergence("event %d: %d candidates on D, %d on D'" % (k, r["n"], ev["n"]))
 
     # --- noise ------------------------------------------------------------------------------------------
     def _noise(self, kind, loc, scale, size):
@@ -64,6 +91,7 @@ class MechRecorder:
         if not (isinstance(loc, (int, float)) and loc == 0):
             raise core.SymError("noise with non-zero location")
         self.events.append(ev)
+        self._check_lockstep(ev)
         return Release(self, ev)
 
     def normal(self, loc=0.0, scale=1.0, size=None):
@@ -100,6 +128,7 @@ class MechRecorder:
                     ev["scores"] = list(rec[1])
                     break
         self.events.append(ev)
+        self._check_lockstep(ev)
         if k not in self.picks:
             self.picks[k] = self._fork(k, int(n))
         ev["chosen"] = self.picks[k]
